@@ -73,6 +73,7 @@ KNOWN_SIGNATURE = "recv_into-cancelled-in-same-window-as-read-event"
 
 # ------------------------------------------------------------------------------------------------ labels
 L_RECV, L_INTO, L_DATA, L_EOF, L_LOST, L_CANCEL, L_WAKE, L_TURN = range(8)
+L_RECVPKT = 8        # recorded traces only: recv_packet() / receiver.next() starts
 DISABLED = [-1]
 
 
@@ -501,6 +502,8 @@ def _oracle(inp):
         return property_failure(inp[2])
     if inp[0] == 1:
         return blocking_failure(inp)
+    if inp[0] == 3:
+        return _oracle([2, 2, None, inp[4]])
     if inp[0] == 2:
         labels, _obs, _delivered, _returned, packets_ok, results = run_scenario(inp[3])
         if not packets_ok:
@@ -538,6 +541,14 @@ def run_impl(inp):
         return replay(inp[2])
     if inp[0] == 1:
         return run_blocking(inp[1], inp[2], inp[3], inp[4])
+    if inp[0] == 3:
+        key = "e" + repr(runner_norm(inp[4]))
+        if key in _cache:
+            return _cache.pop(key)
+        _labels, _obs, _d, _r, _ok, results = run_scenario(inp[4])
+        if runner_norm(run_scenario.last_elabels) != runner_norm(inp[3]):
+            raise RuntimeError("the scenario did not reproduce its recorded label trace (non-deterministic harness)")
+        return _endpoint_results(results)
     if inp[0] == 2:
         key = repr(runner_norm(inp[3]))
         if key in _cache:
@@ -970,7 +981,11 @@ def run_scenario(scenario):
                     sent_plain.extend(payload)
                     feeder.push(peer.encrypt(payload))
             else:
-                receive = _receive_fn(layer, consumer, backend, adapter, packets)
+                inner_receive = _receive_fn(layer, consumer, backend, adapter, packets)
+
+                async def receive(timeout):
+                    rec.event([L_RECVPKT])
+                    return await inner_receive(timeout)
             t0 = loop.time()
 
             async def attempt(budget):
@@ -1051,7 +1066,10 @@ def run_scenario(scenario):
         packets_ok = 1 if out["sent_plain"].startswith(plain) and complete else 0
     else:
         packets_ok = 1 if got == frames_of(rec.returned) else 0
-    return rec.labels, rec.obs, bytes(rec.delivered), bytes(rec.returned), packets_ok, out["results"]
+    labels = [lab for lab in rec.labels if lab[0] != L_RECVPKT]
+    out["elabels"] = [lab for lab in rec.labels if lab[0] not in (L_RECV, L_INTO)]
+    run_scenario.last_elabels = out["elabels"]
+    return labels, rec.obs, bytes(rec.delivered), bytes(rec.returned), packets_ok, out["results"]
 
 
 def _receive_fn(layer, consumer, backend, adapter, packets):
@@ -1154,8 +1172,25 @@ def canonicalise(labels, obs, delivered, returned):
     return labels2, obs2, _canon_bytes(0, len(delivered)), returned2
 
 
+def _endpoint_results(results):
+    """attempt results in the vocabulary of Run/C10.v mode 3"""
+    out = []
+    for r in results:
+        if r[0] == 0:
+            out.append([0, r[1]])
+        elif r[0] in (1, 2):
+            out.append([r[0]])
+        else:
+            out.append([3, 9])
+    return out
+
+
+_last_results = [None]
+
+
 def _scenario_output(scenario):
     labels, obs, delivered, returned, packets_ok, _results = run_scenario(scenario)
+    _last_results[0] = _results
     if scenario[0] == 2:
         labels, obs, delivered, returned = canonicalise(labels, obs, delivered, returned)
     return labels, [obs, delivered, returned, packets_ok]
@@ -1229,6 +1264,15 @@ def _mode2_cases(thorough, rng):
         if out[1] != out[2] and not any(o[0] == 2 for o in out[0]):
             tags.append("bytes-lost")
         yield dict(input=[2, 2, labels, scenario], tags=tags, nontrivial=any(lab[0] == L_CANCEL for lab in labels))
+        if scenario[0] != 2 and detect_fixed():
+            # the composed model Conc/SockEndpoint.v (receive loop + repaired protocol) against the same run
+            results = _last_results[0]
+            elabels = run_scenario.last_elabels
+            _cache["e" + repr(runner_norm(scenario))] = _endpoint_results(results)
+            size = 8
+            yield dict(input=[3, scenario[1], size, elabels, scenario],
+                       tags=["composed-endpoint-model"] + tags[1:],
+                       nontrivial=any(lab[0] == L_CANCEL for lab in labels))
 
 
 # =====================================================================================================================
